@@ -627,7 +627,7 @@ package gldap
 //@   panics false
 
 //@ lockinv gldap.Server.mu : this.listenerReady ==> !isNilIface(this.listener) && G_listening[iref(this.listener)]
-//@ pure srvOK(s *Server) bool = s != nil && !isNilIface(s.logger) && !isNilIface(s.shutdownCtx) && s.router != nil
+//@ pure srvOK(s *Server) bool = s != nil && !isNilIface(s.logger) && !isNilIface(s.shutdownCtx) && s.router != nil && muxOK(s.router)
 
 //@ func (*gldap.Server).Ready
 //@   requires s != nil && !held(&s.mu)
@@ -645,7 +645,13 @@ package gldap
 //@   ensures  err == nil ==> result0 != nil && fresh(result0) && result0.connID == connID && connID != 0 && result0.netConn == netConn && result0.router == router && !isNilIface(result0.logger)
 //@   ensures  err == nil ==> connIO(result0) && result0.shutdownCtx == shutdownCtx && !held(&result0.mu) && !held(&result0.writerMu)
 //@   ensures  unchanged(G_held) && unchanged(G_rheld)
+//@   ensures  err == nil ==> result0.logger == logger && muxOK(router) ==> connOK(result0)
 //@   sets     G_maxid[0] = connID when err == nil
+//@   sets     G_nread[result0] = 0 when err == nil
+//@   sets     G_lastunbind[result0] = false when err == nil
+//@   sets     G_tlspending[result0] = false when err == nil
+//@   sets     G_wgcnt[&result0.requestsWg] = 0 when err == nil
+//@   sets     G_connclosed[result0] = 0 when err == nil
 //@   panics false
 //@   modifies conn.netConn, conn.reader, conn.writer
 //@   tags C09
@@ -745,7 +751,7 @@ package gldap
 //@   ensures  err == nil ==> result0 != nil && fresh(result0) && packetOK(result0) && wire(result0.Packet)
 //@   ensures  !held(&c.mu) && unchanged(G_held) && unchanged(G_rheld)
 //@   panics false
-//@   modifies all(ber.Packet), cell(*ber.Packet), G_bufdata, G_pktnew
+//@   modifies packet.validated, all(ber.Packet), cell(*ber.Packet), G_bufdata, G_pktnew
 //@   tags C02
 //@ func (*gldap.conn).readRequest
 //@   requires connOK(c) && !held(&c.mu) && requestID == G_nread[c] + 1 && !G_lastunbind[c] && !G_tlspending[c]
@@ -756,7 +762,7 @@ package gldap
 //@   sets     G_lastunbind[c] = (result0.routeOp == unbindRouteOperation) when err == nil
 //@   sets     G_tlspending[c] = (result0.extendedName == ExtendedOperationStartTLS) when err == nil
 //@   panics false
-//@   modifies all(ber.Packet), cell(*ber.Packet), G_bufdata, G_pktnew
+//@   modifies packet.validated, all(ber.Packet), cell(*ber.Packet), G_bufdata, G_pktnew
 //@   tags C02 C06 C10 C13
 
 // A-USER: what a handler may do to gldap's state: write responses through its
